@@ -60,7 +60,15 @@ def gen_case(rng, i):
         # a fixed variable is mentioned first and y before x: the column order fix-up matters
         rows = [({others[0]: 1, yv: rng.choice([1, 2]), xv: rng.choice([2, 3, -1])}, rng.randint(2, 8))] + rows
     lo1, lo2 = rng.randint(-5, -2), rng.randint(-5, -2)
-    return {"rows": rows, "xv": xv, "yv": yv, "values": values, "xl": [lo1, rng.randint(2, 5)], "yl": [lo2, rng.randint(2, 5)]}
+    case = {"rows": rows, "xv": xv, "yv": yv, "values": values, "xl": [lo1, rng.randint(2, 5)], "yl": [lo2, rng.randint(2, 5)]}
+    if i % 9 == 3:
+        # a window of zero width or height: the slice is a segment or a point of it, not "no window"
+        if rng.random() < 0.5:
+            case["xl"] = [pt[xv], pt[xv]]
+        else:
+            case["yl"] = [pt[yv], pt[yv]]
+        case["flat"] = True
+    return case
 
 
 def gen_cases(tier):
@@ -83,6 +91,8 @@ def run_case(case):
     evs = []
     # the same list object is sliced twice: first with narrower limits, then with the case's limits
     narrow = ([min(case["xl"][0] + 2, case["xl"][1] - 1), case["xl"][1] - 1], [min(case["yl"][0] + 2, case["yl"][1] - 1), case["yl"][1] - 1])
+    if case.get("flat"):
+        narrow = (list(case["xl"]), list(case["yl"]))
     for xl, yl in (narrow, (case["xl"], case["yl"])):
         evs.append(one_call(case, tl, rows, list(xl), list(yl)))
     return {"id": case["id"], "ev": evs}
